@@ -422,6 +422,16 @@ class Certificate:
             issuer.get_list_of_allowed_persmissions(),
         )
 
+    def chain_length_allows_issuing(self) -> bool:
+        """
+        Check that this certificate may still issue certificates: it holds at least one
+        certIssuePermissions entry and none of them has an exhausted chain length.
+        """
+        permissions = self.certificate["toBeSigned"].get("certIssuePermissions", [])
+        return len(permissions) > 0 and all(
+            permission["minChainLength"] >= 1 for permission in permissions
+        )
+
     @staticmethod
     def verify_signature(
         backend: ECDSABackend, to_be_signed_certificate: dict, signature: dict, verification_key: dict
@@ -476,6 +486,7 @@ class Certificate:
             and self.certificate_is_issued()
             and self.check_corresponding_issuer(self.issuer)
             and self.check_issuer_has_subject_permissions(self.issuer)
+            and self.issuer.chain_length_allows_issuing()
         ):
             if self.signature_is_nist_p256() and self.verification_key_is_nist_p256():
                 if self.verify_signature(
